@@ -61,6 +61,9 @@ func (l LineSegment) ClosestPoint(point Point) Point {
 	bx, by := l[1].GetXY()
 	ds := l[0].DistanceSquared2D(l[1])
 	px, py := point.GetXY()
+	if ds == 0 {
+		return NewPoint(ax, ay)
+	}
 	clamp := maths.Clamp(((px-ax)*(bx-ax)+(py-ay)*(by-ay))/ds, 0, 1)
 	return NewPoint(ax+clamp*(bx-ax), ay+clamp*(by-ay))
 }
